@@ -100,6 +100,16 @@ package slip
 // ---------------------------------------------------------------------------
 // C02: reading is a function of the text, not of its delivery.
 
+// The lexer state is private to one read: no Lisp code, hook or library call
+// can reach it (assumed; the type is unexported and never stored in an object).
+//@ stable-struct slip.reader
+// Bytes are carried from one block to the next only while a token, character,
+// #-number or bit vector is being collected, or inside a string / |symbol| that
+// has not met an escape yet (afterwards the escape buffer holds all of it).
+//@ define ismode(m) = m == valueMode || m == commentMode || m == tokenMode || m == stringMode || m == symbolMode || m == escMode || m == runeMode || m == sharpMode || m == charMode || m == intMode || m == sharpNumMode || m == mustArrayMode || m == blockCommentMode || m == blockEndMode || m == bitVectorMode
+//@ define isnext(m) = m == valueMode || m == stringMode || m == symbolMode
+//@ define pending(r) = len(r.carry) == 0 || r.mode == tokenMode || r.mode == charMode || r.mode == intMode || r.mode == bitVectorMode || ((r.mode == stringMode || r.mode == symbolMode) && len(r.buf) == 0)
+
 // A token that is cut by a stream read is the bytes carried over from the
 // earlier reads followed by the bytes of this block.
 //@ func slip.(*reader).makeToken
@@ -123,6 +133,75 @@ package slip
 //@   on-store mode=stringMode fresh-buffer: len(r.buf) == 0
 //@   on-store mode=symbolMode fresh-buffer: len(r.buf) == 0
 //@   ensures no-silent-loss: (!r.more && !(r.one && len(r.code) > 0)) ==> len(r.stack) == 0
+// Delivery independence: the bytes of a block are looked at one at a time (the
+// current byte of the range loop); the bytes of a pending token, string,
+// character or number are only ever obtained through makeToken (carried bytes
+// followed by the window of this block), never straight from the block; the
+// only slice taken of the block is the pending window saved at the end of a
+// block that is not the last one, and only while something is pending.
+//@   requires block-start: r.tokenStart == 0
+//@   requires carry-only-pending: pending(r)
+//@   requires mode-is-table: ismode(r.mode) && isnext(r.nextMode)
+//@   ensures carry-only-pending: pending(r)
+//@   ensures mode-is-table: ismode(r.mode) && isnext(r.nextMode)
+//@   loop rangeindex: invariant mode-is-table: ismode(r.mode) && isnext(r.nextMode)
+//@   loop r.mode[b]: invariant mode-is-table: ismode(r.mode) && isnext(r.nextMode)
+//@   loop r.mode[b]: invariant carry-only-pending: pending(r)
+//@   ensures within-block: 0 <= r.pos && r.pos <= len(src)
+//@   ensures block-consumed: !(r.one && len(r.code) > 0) ==> r.pos == len(src)
+//@   loop rangeindex: invariant carry-only-pending: pending(r)
+//@   loop rangeindex: invariant window: 0 <= r.tokenStart && r.tokenStart <= rangeindex + 1 && r.pos == rangeindex
+//@   confine src to makeToken pushToken pushChar pushInteger
+//@   on-slice src pending-window: $lo == r.tokenStart && $hi == r.pos && r.more
+//@   on-store carry only-while-pending: r.mode == tokenMode || r.mode == charMode || r.mode == intMode || r.mode == bitVectorMode || ((r.mode == stringMode || r.mode == symbolMode) && len(r.buf) == 0)
+
+// Every entry point starts the lexer in value mode with nothing carried, and the
+// stream readers hand each block to it with the token window reset to the start
+// of the block while the carried bytes and the mode survive from block to block.
+//@ func slip.ReadString
+//@   property C02
+//@ func slip.Read
+//@   property C02
+//@ func slip.ReadOne
+//@   property C02
+//@ func slip.Compile
+//@   property C02
+//@ func slip.ReadStream
+//@   property C02
+//@   loop err!=nil: invariant lexer-state: pending(cr) && ismode(cr.mode) && isnext(cr.nextMode)
+//@ func slip.ReadStreamPush
+//@   property C02
+//@   loop err!=nil: invariant lexer-state: pending(cr) && ismode(cr.mode) && isnext(cr.nextMode)
+//@ func slip.ReadStreamEach
+//@   property C02
+//@   loop err!=nil: invariant lexer-state: pending(cr) && ismode(cr.mode) && isnext(cr.nextMode)
+
+// The token, character and number builders see the bytes of their token only
+// as makeToken hands them over.
+//@ func slip.(*reader).pushToken
+//@   property C02
+//@   requires window: 0 <= r.tokenStart && r.tokenStart <= r.pos && r.pos <= len(src)
+//@   ensures cursor-kept: r.tokenStart == old(r.tokenStart) && r.pos == old(r.pos)
+//@   ensures flags-kept: r.more == old(r.more) && r.one == old(r.one)
+//@   ensures mode-kept: r.mode == old(r.mode)
+//@   ensures carry-consumed: len(r.carry) == 0
+//@   confine src to makeToken
+//@ func slip.(*reader).pushChar
+//@   property C02
+//@   requires window: 0 <= r.tokenStart && r.tokenStart <= r.pos && r.pos <= len(src)
+//@   ensures cursor-kept: r.tokenStart == old(r.tokenStart) && r.pos == old(r.pos)
+//@   ensures flags-kept: r.more == old(r.more) && r.one == old(r.one)
+//@   ensures mode-kept: r.mode == old(r.mode)
+//@   ensures carry-consumed: len(r.carry) == 0
+//@   confine src to makeToken
+//@ func slip.(*reader).pushInteger
+//@   property C02
+//@   requires window: 0 <= r.tokenStart && r.tokenStart <= r.pos && r.pos <= len(src)
+//@   ensures cursor-kept: r.tokenStart == old(r.tokenStart) && r.pos == old(r.pos)
+//@   ensures flags-kept: r.more == old(r.more) && r.one == old(r.one)
+//@   ensures mode-kept: r.mode == old(r.mode)
+//@   ensures carry-consumed: len(r.carry) == 0
+//@   confine src to makeToken
 
 // ---------------------------------------------------------------------------
 // C08 / C13: (re)defining a function. When a placeholder or an earlier
